@@ -290,6 +290,9 @@ PROBES = {
     "f20_set_index_call": _probe([["set", ["the", "sprite", 14, ["c", "random", ["i", 3]]], ["i", 10]]]),
     "f20_index_quote_constant": _probe([["call", "put", ["the", "cast", 11, ["s", S("\"")]]]]),
     "f21_double_minus": _probe([["set", ["l", "x"], ["u", "neg", ["u", "neg", ["l", "y"]]]]]),
+    "f142_object_with_leading_underscore": _probe([["set", ["l", "x"], ["op", "foo", ["p", "_y"]]], ["set", ["l", "tell_obj"], ["i", 1]],
+                                                   ["set", ["l", "x"], ["op", "foo", ["l", "tell_obj"]]], ["set", ["op", "bar", ["p", "_y"]], ["i", 3]],
+                                                   ["set", ["l", "x"], ["op", "foo", ["l", "x"]]]], params=("_y",)),
     "f140_symbol_first_arg_of_list_function": _probe([["set", ["l", "x"], ["c", "getOne", ["y", "foo"], ["i", 3]]]]),
     "f22_nested_tell": _probe([["tell", ["c", "window", ["s", S("a")]], ["tell", ["c", "window", ["s", S("b")]], ["call", "updateStage"]], ["call", "beep"]]]),
     "f38_set_field_property": _probe([["set", ["the", "field", 6, ["i", 1]], ["s", S("right")]]]),
